@@ -14,6 +14,7 @@ require (
 	github.com/hashicorp/go-retryablehttp v0.7.8 // indirect
 	github.com/hashicorp/golang-lru/v2 v2.0.7 // indirect
 	golang.org/x/sys v0.34.0 // indirect
+	golang.org/x/tools v0.29.0
 )
 
 replace github.com/c2FmZQ/ech => /repo
